@@ -1,3 +1,166 @@
 import Nv.OracleIO
-/-! oracle_c06 — stub (model not built yet): answers `bad-op` to every line. -/
-def main : IO Unit := Nv.oracleMain (fun (_ : Unit) _ => ((), "bad-op")) ()
+import Nv.Model.C06
+import Nv.Gen.C06
+/-!
+oracle_c06 — line protocol (all numbers decimal, signed 64-bit unless said otherwise):
+  `cfg <epochMs> <nodeBits:8|9|10> <nodeAtLowest:0|1>`   (re)initialise                       → `ok`
+  `hard <node> <min|$last>`      NewNode(node, min)                                          → `ok` | `err`
+  `g <ms> <sub>`                 Generate at the clock reading ms·10^6+sub ns                → `<id>`
+  `burst <ms> <sub> <n>`         n calls at that reading                                    → `<first>..<last> sum=<wrapping sum> inc=<0|1>`
+  `par <ms> <sub> <g> <k>`       g goroutines × k calls at that reading (merged, sorted)    → as `burst` with n = g·k
+  `state`                        (T) internal state of the hard node                         → `e=<epoch> t=<time> s=<step>`
+  `nano <cur>` / `nanonl <cur>`  NewUnixNanoID / NewUnixNanoNoLockID                         → `ok`
+  `n <ts>`                       GenIDByTS                                                   → `<id>`
+  `nburst <ts> <n>` / `npar <ts> <g> <k>`                                                    → as `burst`
+  `mono <node> <n> <g>`          MonoNode under the real clock; the runner feeds the observed
+                                 ids back as `monocheck`                                      → `accepted` | `err`
+  `monocheck <node> <id>*`       is the trace one of a fresh MonoNode(node) for some
+                                 non-decreasing clock?                                        → `accepted` | `rejected@<i>` | `err`
+The accessor configuration is the one regenerated from the source (`Nv.Gen.C06.cfg`).
+-/
+open Nv Nv.C06
+
+structure OState where
+  ready : Bool := false
+  epochG : BitVec 64 := 0#64
+  nb : BitVec 8 := 10#8
+  nal : Bool := false
+  hard : Option HState := none
+  last : Option (BitVec 64) := none      -- last id of the current/previous hard node (`$last`)
+  nano : Option (BitVec 64) := none
+
+def inI64 (i : Int) : Bool := decide (-9223372036854775808 ≤ i) && decide (i ≤ 9223372036854775807)
+
+/-- strict decimal syntax `-?[0-9]+` (what the Go runner accepts) -/
+def isDec (s : String) : Bool :=
+  match s.toList with
+  | '-' :: d :: ds => (d :: ds).all Char.isDigit
+  | d :: ds => (d :: ds).all Char.isDigit
+  | [] => false
+
+def parseI64 (s : String) : Option (BitVec 64) :=
+  if !isDec s then none else
+  match s.toInt? with
+  | some i => if inI64 i then some (BitVec.ofInt 64 i) else none
+  | none => none
+
+def parseNatStrict (s : String) : Option Nat :=
+  if isDec s && !(s.startsWith "-") then s.toNat? else none
+
+def parseCount (s : String) (max : Nat) : Option Nat :=
+  match parseNatStrict s with
+  | some n => if 1 ≤ n && n ≤ max then some n else none
+  | none => none
+
+def showId (b : BitVec 64) : String := toString b.toInt
+
+/-- n calls of `f`, ids in call order -/
+def idsLoop (f : σ → σ × BitVec 64) : Nat → σ → List (BitVec 64) → σ × List (BitVec 64)
+  | 0, s, acc => (s, acc.reverse)
+  | n + 1, s, acc => let r := f s; idsLoop f n r.1 (r.2 :: acc)
+
+/-- `<first>..<last> sum=<wrapping sum> inc=<strictly increasing, also from prev>` -/
+def showBurst (prev : Option (BitVec 64)) (ids : List (BitVec 64)) : String :=
+  match ids, ids.getLast? with
+  | a :: _, some b =>
+    let sum := ids.foldl (· + ·) 0#64
+    let inc := (ids.foldl (fun (acc : Bool × Option (BitVec 64)) id =>
+      (match acc.2 with
+       | some p => acc.1 && BitVec.slt p id
+       | none => acc.1, some id)) (true, prev)).1
+    s!"{showId a}..{showId b} sum={showId sum} inc={if inc then 1 else 0}"
+  | _, _ => "bad-op"
+
+/-- concurrent callers: the runner can only observe the *set* of ids, so both sides sort it -/
+def sortIds (ids : List (BitVec 64)) : List (BitVec 64) :=
+  (ids.toArray.qsort (fun a b => BitVec.slt a b)).toList
+
+def parseClock (ms sub : String) : Option Clock :=
+  match parseI64 ms, parseNatStrict sub with
+  | some m, some s => if s < 1000000 then some ⟨m.toInt, s⟩ else none
+  | _, _ => none
+
+def monoCheck (s : OState) (node : BitVec 64) (ids : List (BitVec 64)) : String :=
+  if BitVec.slt node 0#64 || BitVec.slt ((1#64 <<< s.nb.toNat) - 1#64) node then "err"
+  else match monoAccept s.nb s.nal ⟨0#64, node, 0#64⟩ 0 ids with
+    | none => "accepted"
+    | some i => s!"rejected@{i}"
+
+def step (s : OState) (line : String) : OState × String :=
+  let c := Nv.Gen.C06.cfg
+  match words line with
+  | ["cfg", e, nb, nal] =>
+    match parseI64 e, parseNatStrict nb, nal with
+    | some e, some nb, "0" | some e, some nb, "1" =>
+      if (nb == 8 || nb == 9 || nb == 10) then
+        ({ ready := true, epochG := e, nb := BitVec.ofNat 8 nb, nal := nal == "1" }, "ok")
+      else (s, "bad-op")
+    | _, _, _ => (s, "bad-op")
+  | _ =>
+  if !s.ready then (s, "bad-op") else
+  match words line with
+  | ["hard", node, min] =>
+    let minv := if min == "$last" then s.last else parseI64 min
+    match parseI64 node, minv with
+    | some node, some min =>
+      match newNode c s.nb s.nal s.epochG node min with
+      | some h => ({ s with hard := some h, last := some min }, "ok")
+      | none => (s, "err")
+    | _, _ => (s, "bad-op")
+  | ["g", ms, sub] =>
+    match s.hard, parseClock ms sub with
+    | some h, some t =>
+      let r := hardGen c s.nb s.nal h t
+      ({ s with hard := some r.1, last := some r.2 }, showId r.2)
+    | _, _ => (s, "bad-op")
+  | ["burst", ms, sub, n] =>
+    match s.hard, parseClock ms sub, parseCount n 100000 with
+    | some h, some t, some n =>
+      -- `hardGen c nb nal h t = hardCore nb nal h now`; the epoch does not change, so `now` is computed once
+      let now := hardNow c h.epoch (accWord c.nowAcc t)
+      let r := idsLoop (fun h => hardCore s.nb s.nal h now) n h []
+      ({ s with hard := some r.1, last := r.2.getLast? }, showBurst s.last r.2)
+    | _, _, _ => (s, "bad-op")
+  | ["par", ms, sub, g, k] =>
+    match s.hard, parseClock ms sub, parseCount g 64, parseCount k 10000 with
+    | some h, some t, some g, some k =>
+      let now := hardNow c h.epoch (accWord c.nowAcc t)
+      let r := idsLoop (fun h => hardCore s.nb s.nal h now) (g * k) h []
+      let ids := sortIds r.2
+      ({ s with hard := some r.1, last := ids.getLast? }, showBurst s.last ids)
+    | _, _, _, _ => (s, "bad-op")
+  | ["state"] =>
+    match s.hard with
+    | some h => (s, s!"e={showId h.epoch} t={showId h.time} s={showId h.step}")
+    | none => (s, "bad-op")
+  | ["nano", cur] | ["nanonl", cur] =>
+    match parseI64 cur with
+    | some cur => ({ s with nano := some cur }, "ok")
+    | none => (s, "bad-op")
+  | ["n", ts] =>
+    match s.nano, parseI64 ts with
+    | some cur, some ts => let r := nanoGen ts cur; ({ s with nano := some r.2 }, showId r.1)
+    | _, _ => (s, "bad-op")
+  | ["nburst", ts, n] =>
+    match s.nano, parseI64 ts, parseCount n 100000 with
+    | some cur, some ts, some n =>
+      let r := idsLoop (fun cur => let x := nanoGen ts cur; (x.2, x.1)) n cur []
+      ({ s with nano := some r.1 }, showBurst (some cur) r.2)
+    | _, _, _ => (s, "bad-op")
+  | ["npar", ts, g, k] =>
+    match s.nano, parseI64 ts, parseCount g 64, parseCount k 10000 with
+    | some cur, some ts, some g, some k =>
+      let r := idsLoop (fun cur => let x := nanoGen ts cur; (x.2, x.1)) (g * k) cur []
+      ({ s with nano := some r.1 }, showBurst (some cur) (sortIds r.2))
+    | _, _, _, _ => (s, "bad-op")
+  | ["mono", node, n, g] =>
+    match parseI64 node, parseCount n 100000, parseCount g 64 with
+    | some node, some _, some _ => (s, monoCheck s node [])
+    | _, _, _ => (s, "bad-op")
+  | "monocheck" :: node :: ids =>
+    match parseI64 node, ids.mapM parseI64 with
+    | some node, some ids => (s, monoCheck s node ids)
+    | _, _ => (s, "bad-op")
+  | _ => (s, "bad-op")
+
+def main : IO Unit := oracleMain step {}
